@@ -303,8 +303,8 @@ pub fn property() -> Property {
         subs: vec![prop_sub(
             "stream",
             "generated requests (3 roles) x stream records (1..65535 bytes, padding 0..255, terminated or ended by the next stream / not at all) x interleaved GetValues/unknown/stale Params/duplicate+foreign BeginRequest/foreign-id records x entry via shared or fresh buffer (24 bytes upward) x caller schedules of Feed(dest|None)/Parse0/ConsumeStream/Compress/ConsumeOutput/Advance; invariants after every action (delivered++buffered is a prefix of the model content, Status counts, end-of-stream neither early nor lost, persistent), completeness and exact replies at quiescence; non-trivial = a stream spans >=2 records and the schedule compacted with buffered data or filled a dest; distinct = hash of the case",
-            5_000,
-            300_000,
+            40_000,
+            1_200_000,
             |_| case_strategy(),
             test,
         )],
